@@ -303,9 +303,12 @@ func c19Parts(run *vf.Run, dir string) {
 // transaction with a fired audit-enabled rule writes exactly one record and the writer does not panic.
 func c19Formats(run *vf.Run, dir string) {
 	for _, format := range []string{"json", "jsonlegacy", "native", "ocsf"} {
-		for _, parts := range []string{"ABHKZ", "ABHZ", "ABKZ", "AZ", "ABCEFHIJKZ"} {
+		for _, parts := range []string{"ABHKZ", "ABHZ", "ABKZ", "AZ", "ABCEFHIJKZ", "(default)"} {
 			path := filepath.Join(dir, "fmt-"+format+"-"+parts+".log")
 			text := fmt.Sprintf("SecRuleEngine On\nSecRequestBodyAccess On\nSecAuditEngine On\nSecAuditLogParts %s\nSecAuditLogType Serial\nSecAuditLogFormat %s\nSecAuditLog %s\nSecAction \"id:1,phase:1,pass,log,auditlog,msg:'m1'\"\nSecAction \"id:2,phase:2,pass,nolog,auditlog,msg:'m2',logdata:'d'\"\n", parts, format, path)
+			if parts == "(default)" { // no SecAuditLogParts directive: the parts the library starts with
+				text = strings.Replace(text, "SecAuditLogParts (default)\n", "", 1)
+			}
 			w, err := coraza.NewWAF(coraza.NewWAFConfig().WithDirectives(text))
 			if err != nil {
 				run.Inconclusive("audit format configuration rejected: %v\n%s", err, text)
@@ -338,6 +341,24 @@ func c19Formats(run *vf.Run, dir string) {
 				continue
 			}
 			b, _ := os.ReadFile(path)
+			if format == "native" && len(b) > 0 {
+				// balanced native record: sections --<boundary>-<part>--, the header A (with the transaction id) first, Z last
+				var secs []string
+				idInA := false
+				cur := ""
+				for _, l := range strings.Split(string(b), "\n") {
+					if strings.HasPrefix(l, "--") && strings.HasSuffix(l, "--") && len(l) >= 7 && l[len(l)-4] == '-' {
+						cur = l[len(l)-3 : len(l)-2]
+						secs = append(secs, cur)
+					} else if cur == "A" && strings.Contains(l, "tx-fmt") {
+						idInA = true
+					}
+				}
+				if len(secs) == 0 || secs[0] != "A" || secs[len(secs)-1] != "Z" || !idInA {
+					run.Violate(vf.Violation{Signature: "audit:native-record-unbalanced|parts:" + parts, What: fmt.Sprintf("SecAuditLogFormat native with SecAuditLogParts %s: the record has the sections %v - it must open with the header section A carrying the transaction id and close with the end marker Z", parts, secs),
+						Replay: map[string]any{"directives": text, "log": string(b)}})
+				}
+			}
 			if !strings.Contains(string(b), "tx-fmt") {
 				run.Violate(vf.Violation{Signature: "audit:record-missing|format:" + format, What: fmt.Sprintf("SecAuditLogFormat %s with SecAuditLogParts %s: no record carrying the transaction id was written (%d bytes in the log)", format, parts, len(b)),
 					Replay: map[string]any{"directives": text, "log": string(b)}})
